@@ -194,6 +194,13 @@ func handAssembled() map[string]asmProg {
 		oBIND, 0, 0x21, oBIND, 0, 0x13, oZERO, oZERO, oDIV, oRET},
 		consts:    []any{"t", "name", "f", "c", "", "g"},
 		positions: []int{0, 0, 0, 1, 2, 2, 2, 3, 3, 3, 4, 4, 5, 6, 6, 6, 7, 8, 9, 9, 9, 12, 12, 12, 30, 31, 32, 33}, lfs: []int{10, 20}}
+	// BIND with operand bytes no compiler writes (struct target with selector "all", a selector that does
+	// not exist, a target that does not exist): what such a file does is part of what version 1.1 means
+	for _, b := range []byte{0x1F, 0x14, 0x31, 0x00} {
+		m[fmt.Sprintf("hand-bind-%02x", b)] = asmProg{name: "bo", code: []byte{
+			oDEFBLOCK, 0, 1, oTRUE, oSETFIELD, 2, oPOP, oENDBLOCK, oDEFBLOCK, 0, 1, oENDBLOCK, oBIND, 0, b, oRET},
+			consts: []any{"t", "", "f"}, lfs: []int{4, 9}}
+	}
 	return m
 }
 
